@@ -13,6 +13,8 @@ import (
 	"sort"
 	"strings"
 	"testing"
+	"testing/synctest"
+	"time"
 
 	"aaverif/tape"
 )
@@ -192,3 +194,30 @@ func Register(name string, e Engine) { engines[name] = e }
 
 // Lookup finds an engine.
 func Lookup(name string) (Engine, bool) { e, ok := engines[name]; return e, ok }
+
+// Bubble runs body in a testing/synctest bubble on its own goroutine. It returns the panic message if
+// the bubble panicked (the "deadlock" panic raised when body returns with goroutines still blocked
+// included), and stuck=true if the bubble did not finish within limit of REAL time: inside a bubble
+// synctest.Wait only returns when every goroutine is durably blocked, and a goroutine blocked for ever
+// on a sync.Mutex is not -- such a deadlock makes the simulation itself hang, and this last-resort
+// watchdog (runs take milliseconds; the limit is tens of seconds) turns it into a verdict. The stuck
+// goroutines are abandoned.
+func Bubble(t *testing.T, limit time.Duration, body func()) (panicMsg string, stuck bool) {
+	done := make(chan string, 1)
+	go func() {
+		defer func() {
+			if r := recover(); r != nil {
+				done <- fmt.Sprint(r)
+				return
+			}
+			done <- ""
+		}()
+		synctest.Test(t, func(*testing.T) { body() })
+	}()
+	select {
+	case msg := <-done:
+		return msg, false
+	case <-time.After(limit):
+		return "", true
+	}
+}
